@@ -8,7 +8,7 @@ from ..model import Function
 from ..scope import FuncInfo
 from ..cfg import CFG, forward, must_facts, reaching_defs, header_expr, stmt_defs
 from ..callgraph import own_walk
-from ..astutil import src, ctarget, cname, kwarg, if_chain, ends_in_raise
+from ..astutil import src, ctarget, cname, kwarg, if_chain, ends_in_raise, body_nodoc
 from ..pattern import canon, matches, find_all
 
 NORMALISERS = {'getvector', 'getmatrix'}
@@ -578,6 +578,30 @@ def check_extraction_units(run, f, rule='R10x'):
                     c = canon(fi, st.value)
                     if matches('180 / pi', c) is not None or matches('180.0 / pi', c) is not None or find_all('180 / pi', c) or find_all('180.0 / pi', c):
                         ok = True
+    # a scale factor kept in a local (conv = 180/pi under deg, 1 otherwise) must reach EVERY value return: an arm that returns the
+    # unscaled angles (typically the multi-valued arm) answers in radians whatever was asked for
+    scale = set()
+    for n in own_walk(f.node):
+        if isinstance(n, ast.If) and matches("%s == 'deg'" % up, n.test) is not None:
+            for st in n.body:
+                if isinstance(st, ast.Assign) and isinstance(st.targets[0], ast.Name) and '180' in ast.unparse(st.value) and 'pi' in ast.unparse(st.value):
+                    other = [s2 for s2 in n.orelse if isinstance(s2, ast.Assign) and isinstance(s2.targets[0], ast.Name) and s2.targets[0].id == st.targets[0].id]
+                    if other:
+                        scale.add(st.targets[0].id)
+    if scale:
+        from .r16_tables import Ctx, sl_eval
+        cx = Ctx(run, f.key)
+        for (r, e) in sl_eval(cx, keep=tuple(scale)):
+            names = {y.id for y in ast.walk(e) if isinstance(y, ast.Name)}
+            if isinstance(e, ast.Constant):
+                continue
+            if names & scale:
+                run.holds(rule, f.key, 'deg scaling of ' + src(r.value, 40), 'the returned value carries the unit factor %s' % '/'.join(sorted(scale)), f=f, node=r)
+            else:
+                ok = False
+                run.violation(rule, f.key, 'deg scaling of ' + src(r.value, 40), 'this return does not carry the unit factor %s: the angles come back in radians although '
+                              "%s == 'deg' was asked for (degrees are not radians times 180/pi on this path)" % ('/'.join(sorted(scale)), up), f=f, node=r)
+                return
     if ok:
         run.holds(rule, f.key, 'deg scaling', "result is multiplied by 180/pi exactly under %s == 'deg'" % up, f=f)
     else:
@@ -985,4 +1009,112 @@ def check_none_belief(run, funcs, rule='R10m'):
                               'gets a None inside the value (or a TypeError) instead of the documented behaviour' % (p, f.name, src(pr, 50), p), f=f, node=x)
             else:
                 run.holds(rule, f.key, 'None-default %s used as a value' % p, 'every use as a number/vector is under `%s is not None`' % p, f=f)
+    return n
+
+
+# ---------------------------------------------------------------------------------------------------------------- R10g
+def check_getvector_contract(run, rule='R10g'):
+    """The normaliser root itself.  Every other rule takes `getvector` as the point where list, tuple, 1-D, row and column forms
+    become ONE value; that needs three things of its body:
+    (dtype)  an array or sequence result is converted with the dtype the CALLER asked for (parameter `dtype`, default float64):
+             every definition of the conversion dtype that reaches `.astype(dt)` / `np.array(v, dtype=dt)` is `dt = dtype`, or is
+             made under a symbol / object-dtype test.  Keeping the argument's own dtype makes an int array wrap and a float32
+             array lose nine digits where the equal list is computed in float64;
+    (default) the default of `dtype` is float64;
+    (length) when `dim` is given, every value return lies behind the length test of its container arm: a return placed before
+             it answers a vector of the wrong length instead of rejecting it."""
+    f = run.prog.func('base/argcheck:getvector')
+    fi = FuncInfo.of(f)
+    cfg = CFG(f.node)
+    facts = must_facts(cfg)
+    IN, OUT = reaching_defs(cfg, f.allparams)
+    reach = cfg.reachable()
+    n = 0
+    # (default)
+    d = f.defaults().get('dtype')
+    dn = cname(fi, d) if isinstance(d, (ast.Attribute, ast.Name)) else None
+    n += 1
+    if 'dtype' not in f.allparams:
+        run.error('R10g: getvector has no dtype parameter (anchor not found in the current source)', hard=True)
+    elif dn in ('numpy.float64', 'float', 'numpy.float_', 'numpy.double') or (isinstance(d, ast.Name) and d.id == 'float'):
+        run.holds(rule, f.key, 'default of dtype', 'the default conversion dtype is float64', f=f)
+    else:
+        run.violation(rule, f.key, 'default of dtype', 'the default of dtype is %s, not float64: integer and single-precision arrays are no longer brought to '
+                      'the type the equal list is computed in' % (ast.unparse(d) if d is not None else None), f=f)
+    # (dtype)
+    for node in cfg.nodes:
+        if node.id not in reach:
+            continue
+        for h in header_expr(node):
+            if h is None:
+                continue
+            for x in ast.walk(h):
+                dt = None
+                if isinstance(x, ast.Call) and isinstance(x.func, ast.Attribute) and x.func.attr == 'astype' and x.args:
+                    dt = x.args[0]
+                elif isinstance(x, ast.Call) and cname(fi, x) in ('numpy.array', 'numpy.asarray') and kwarg(x, 'dtype') is not None:
+                    dt = kwarg(x, 'dtype')
+                if dt is None:
+                    continue
+                n += 1
+                construct = 'conversion dtype of ' + src(x, 40)
+                if isinstance(dt, ast.Name) and dt.id == 'dtype':
+                    run.holds(rule, f.key, construct, 'the dtype parameter itself', f=f, node=x)
+                    continue
+                if not isinstance(dt, ast.Name):
+                    run.undecided(rule, f.key, construct, 'conversion dtype is not a name', f=f, node=x)
+                    continue
+                bad = None
+                for (nm, dnode) in IN.get(node.id, ()):
+                    if nm != dt.id or dnode == cfg.entry.id:
+                        continue
+                    a = cfg.nodes[dnode].ast
+                    val = a.value if isinstance(a, ast.Assign) else None
+                    if isinstance(val, ast.Name) and val.id == 'dtype':
+                        continue
+                    if val is not None and (cname(fi, val) in ('numpy.float64', 'numpy.float_', 'numpy.double') or (isinstance(val, ast.Name) and val.id == 'float')):
+                        continue          # float64 spelt out
+                    under_sym = any(fc[1] and any(k in ast.unparse(fc[2].ast) for k in ("dtype.kind == 'O'", "dtype == 'O'", 'dtype == object', 'issymbol('))
+                                    for fc in facts.get(dnode, frozenset()))
+                    if under_sym:
+                        continue
+                    bad = a
+                if bad is None:
+                    run.holds(rule, f.key, construct, 'every definition of %s is the dtype parameter or is made under a symbol test' % dt.id, f=f, node=x)
+                else:
+                    run.violation(rule, f.key, construct, 'the conversion dtype %s can be %s here (not the dtype parameter, not under a symbol test): the argument keeps '
+                                  'a type of its own -- an integer array is then computed in wrapping integer arithmetic and a float32 array to seven digits, '
+                                  'while the equal list is computed in float64' % (dt.id, src(bad.value, 30) if isinstance(bad, ast.Assign) else '?'), f=f, node=x)
+    # a result array returned without any conversion (v.copy(), v itself) in the array / row / col forms
+    # (length)
+    def walk(stmts, seen):
+        nonlocal n
+        seen = list(seen)
+        for st in stmts:
+            if isinstance(st, ast.If):
+                has_ret = any(isinstance(y, ast.Return) for y in ast.walk(st))
+                if not has_ret:
+                    seen.append(st.test)           # a guard (raises or only assigns): its test has been evaluated on the way
+                    for y in ast.walk(st):
+                        if isinstance(y, ast.If):
+                            seen.append(y.test)
+                    continue
+                walk(st.body, seen + [st.test])
+                walk(st.orelse, seen + [st.test])
+                seen.append(st.test)
+            elif isinstance(st, ast.Return) and st.value is not None:
+                n += 1
+                construct = 'length test before ' + src(st, 40)
+                if any(any(isinstance(y, ast.Name) and y.id == 'dim' for y in ast.walk(t)) and
+                       any(isinstance(y, ast.Call) and isinstance(y.func, ast.Name) and y.func.id == 'len' or isinstance(y, ast.Attribute) and y.attr == 'shape' or
+                           isinstance(y, ast.Name) and y.id in ('s',) for y in ast.walk(t)) for t in seen):
+                    run.holds(rule, f.key, construct, 'behind the length test of its arm', f=f, node=st)
+                else:
+                    run.violation(rule, f.key, construct, 'this value return is reached without the length of the argument having been compared with dim: '
+                                  'a vector of the wrong length in this form is answered instead of rejected', f=f, node=st)
+            elif isinstance(st, (ast.For, ast.While, ast.With, ast.Try)):
+                walk(getattr(st, 'body', []), seen)
+    walk(body_nodoc(f.node), [])
+    if n < 10:
+        run.error('R10g: only %d instances recognised in getvector (expected >= 10)' % n)
     return n
